@@ -1,10 +1,14 @@
 package main
 
-import "golang.org/x/tools/go/ssa"
+import (
+	"fmt"
+
+	"golang.org/x/tools/go/ssa"
+)
 
 func init() {
 	register("C04", runC04, propMeta{
-		Explanation: "Decides, for every rule set, the loop discipline of the sort model and its sorted selected variants: (O1) every sort of rule entities in the product orders by Salience descending on the slice being sorted; (O2) the slice each sequential loop ranges over is the container's SortRules or a local slice on which such a sort lies on every path (except when shorter than 2); (O3, rule A3) exactly one RuleEntity.Execute per iteration on the ranged element, its error tested on every path, the only ways out of the loop are the loop end, `err != nil && !continueOnError -> return non-nil error with nothing else running`, and the stop-tag break; with continue-on-error a failure is appended to the error list on every path to the next iteration; (O4) after the loop a nil error is returned only where the error list is known to be empty and a new error where it is non-empty. The builder's sort that produces SortRules is checked by O1 too. Not decided: that sort.SliceStable sorts (trusted), rule bodies. In the full build no path from the entry to the installing store avoids the sort, except over an edge on which a length test bounds the list to fewer than two rules. The pool's sort-model methods call the engine method of their own name with their own arguments, each in its place (O7).",
+		Explanation: "Decides, for every rule set, the loop discipline of the sort model and its sorted selected variants: (O1) every sort of rule entities in the product orders by Salience descending on the slice being sorted; (O2) the slice each sequential loop ranges over is the container's SortRules or a local slice on which such a sort lies on every path (except when shorter than 2); (O3, rule A3) exactly one RuleEntity.Execute per iteration on the ranged element, its error tested on every path, the only ways out of the loop are the loop end, `err != nil && !continueOnError -> return non-nil error with nothing else running`, and the stop-tag break; with continue-on-error a failure is appended to the error list on every path to the next iteration; (O4) after the loop a nil error is returned only where the error list is known to be empty and a new error where it is non-empty. The builder's sort that produces SortRules is checked by O1 too. Not decided: that sort.SliceStable sorts (trusted), rule bodies. In the full build no path from the entry to the installing store avoids the sort, except over an edge on which a length test bounds the list to fewer than two rules. The pool's sort-model methods call the engine method of their own name with their own arguments, each in its place (O7). (O8) RuleEntity.Salience, the key of every sort, is stored only by the entity's own Accept method and with the value it is given: no second writer can replace the number written in the rule text.",
 		Assumptions: []string{"sort.SliceStable is a stable sort by the given less function", "RuleEntity.Execute runs the rule once (C02/C09)"},
 		Trusted:     commonTrusted,
 	})
@@ -80,8 +84,55 @@ func runC04(c *Ctx) {
 		ok, why := c.panicSafe(f)
 		c.Check("O5-failure-reported", "RuleEntity.Execute", ok, f.Pos(), "%s", why)
 	}
+	c.ruleSalienceAsWritten("O8-salience-as-written")
 	c.Min("O2-incremental-keeps-order", 30)
 	c.Min("O3-loop-discipline", 40)
 	c.Min("O2-order-source", 5)
 	c.Min("O4-errors-surface", 20)
+}
+
+// ruleSalienceAsWritten: the key every sort orders by is the number written in the rule's text.
+// RuleEntity.Salience is stored only by the entity's own Accept method, with the value it is
+// given (the listener hands it strconv.ParseInt of the literal's text, sign included: E5/G3);
+// any other writer replaces the key after it was compiled.
+func (c *Ctx) ruleSalienceAsWritten(rule string) {
+	nAccept := 0
+	for _, f := range c.AllFns {
+		if f.Pkg == nil {
+			continue
+		}
+		x := c.Index(f)
+		k := 0
+		eachInstr(f, func(in ssa.Instruction) {
+			st, ok := in.(*ssa.Store)
+			if !ok {
+				return
+			}
+			fa, ok := st.Addr.(*ssa.FieldAddr)
+			if !ok || structName(fa.X.Type()) != "RuleEntity" || fieldOf(fa).Name() != "Salience" {
+				return
+			}
+			k++
+			root := rootOf(f)
+			if f.Pkg.Pkg.Path() == pBase && recvName(root) == "RuleEntity" && len(root.Name()) > 6 && root.Name()[:6] == "Accept" {
+				given := false
+				for _, p := range f.Params[1:] {
+					if x.Unwrap(st.Val) == ssa.Value(p) {
+						given = true
+					}
+				}
+				nAccept++
+				c.Check(rule, fmt.Sprintf("%s#stores-what-it-is-given", fnName(f)), given, in.Pos(), "the entity's salience must be exactly the value handed to %s, got %s", fnName(f), x.Describe(st.Val))
+				return
+			}
+			// an entity the function has just made may be given its default
+			if _, fresh := x.Origin(fa.X).(*ssa.Alloc); fresh {
+				if _, isK := x.Origin(st.Val).(*ssa.Const); isK {
+					return
+				}
+			}
+			c.Check(rule, fmt.Sprintf("%s#salience-store%d", fnName(f), k), false, in.Pos(), "RuleEntity.Salience is written outside the entity's Accept method: the rule is then ordered by something else than the salience written in its text")
+		})
+	}
+	c.Check(rule, "RuleEntity.Salience#set-by-accept", nAccept >= 1, 0, "no Accept method of RuleEntity stores the salience (%d found)", nAccept)
 }
